@@ -15,12 +15,12 @@ def toAtom (j : Json) : Atom :=
   | "settings" => .settings
   | "listError" => .listError
   | "cls" => .cls (str j "n")
-  | "unhashable" => .unhashable (str j "n")
-  | _ => .opaque
+  | "unhashable" => .unhashable (str j "n") (str j "r")
+  | _ => .opaque (str j "r")
 
 def toAnn (j : Json) : Ann :=
   match j.getObjVal? "u" with
-  | .ok (.arr a) => .union (a.toList.map toAtom)
+  | .ok (.arr a) => .union (a.toList.map toAtom) (str j "r")
   | _ => .one (toAtom j)
 
 def toPKind (s : String) : PKind :=
@@ -57,7 +57,8 @@ partial def toForest : List Json → Forest
 def toPath (s : String) : ModPath := s.splitOn "."
 def pathJ (p : ModPath) : Json := Json.str (".".intercalate p)
 
-def loadErrJ : LoadErr → Json
+def loadErrJ (f : Forest) : LoadErr → Json
+  | .importError t => Json.mkObj [("r", "importError"), ("text", importText f t)]
   | .typeError loc reason => Json.mkObj [("r", "typeError"), ("located", loc.isSome),
       ("text", (LoadErr.typeError loc reason).text), ("reason", reason)]
   | .crash exc => Json.mkObj [("r", "crash"), ("exc", exc)]
@@ -70,22 +71,22 @@ def callJ (c : Call) : Json := Json.arr #[pathJ c.check, c.node, c.nargs]
 
 def modulesJ (f : Forest) (b : ModPath) (targets : List ModPath) : Json :=
   let r := getModules f b targets
-  Json.mkObj [("out", Json.arr (r.1.map pathJ).toArray), ("err", optJ loadErrJ r.2)]
+  Json.mkObj [("out", Json.arr (r.1.map pathJ).toArray), ("err", optJ (loadErrJ f) r.2)]
 
 def sigJ (file : String) (line : Nat) (sig : Sig) : Json :=
   let res := match validSignature file line sig with
     | .ok tys => Json.mkObj [("r", "ok"), ("types", toJson tys)]
-    | .error e => loadErrJ e
+    | .error e => loadErrJ .nil e
   Json.mkObj [("res", res), ("annotations", toJson sig.annotations),
-    ("arity", runCheckArity sig.annotations), ("binds", sig.binds (runCheckArity sig.annotations))]
+    ("arity", runCheckArity sig), ("old_arity", arityByAnnotations sig.annotations), ("binds", sig.binds (runCheckArity sig))]
 
 def loadJ (f : Forest) (b : ModPath) (targets : List ModPath) (s : Settings) (nodes : List String) : Json :=
   match loadChecks f b targets s with
-  | .error e => Json.mkObj [("r", "error"), ("err", loadErrJ e), ("report", reportJ (reportOf e))]
+  | .error e => Json.mkObj [("r", "error"), ("err", loadErrJ f e), ("report", reportJ (reportOf f e))]
   | .ok t =>
     let run := match runFile f t nodes with
       | .ok calls => Json.mkObj [("r", "ok"), ("calls", Json.arr (calls.map callJ).toArray)]
-      | .error e => Json.mkObj [("r", "error"), ("err", loadErrJ e), ("report", reportJ (reportOf e))]
+      | .error e => Json.mkObj [("r", "error"), ("err", loadErrJ f e), ("report", reportJ (reportOf f e))]
     Json.mkObj [("r", "ok"), ("table", tableJ t), ("run", run)]
 
 end LoaderW
